@@ -82,7 +82,7 @@ def canon(exec_lines):
     return '\n'.join(out)
 
 
-def run_net(prop, tier, seed, profiles, rule, assumptions, models=(), level='model_checking', dlimpl=(), satimpl=None, lraimpl=None, reifyimpl=None, ovimpl=None, cache=None, release_too=False, post=None):
+def run_net(prop, tier, seed, profiles, rule, assumptions, models=(), level='model_checking', dlimpl=(), satimpl=None, lraimpl=None, reifyimpl=None, ovimpl=None, lracreate=None, cache=None, release_too=False, post=None):
     """profiles: list of (profile, executions_quick, executions_thorough, max_ops)"""
     ev = Evidence(prop, tier, seed, level)
     ev.cov['rule'] = rule
@@ -186,6 +186,10 @@ def run_net(prop, tier, seed, profiles, rule, assumptions, models=(), level='mod
         if reifyimpl and not ev.violations:
             import reifyreplay
             reifyreplay.run(ev, prop, tier, reifyimpl[0] if tier == 'quick' else reifyimpl[1])
+        # every transition of the implementation-shaped model of the creation-time logic of lra_theory, replayed on the library
+        if lracreate and not ev.violations:
+            import lracreplay
+            lracreplay.run(ev, prop, tier, lracreate[0] if tier == 'quick' else lracreate[1])
         # every transition of the implementation-shaped model of the object-variable theory, replayed on the library
         if ovimpl and not ev.violations:
             import ovreplay
